@@ -482,7 +482,9 @@ class Interp:
                 self.ev(s.exc, env)
                 e = s.exc.func if isinstance(s.exc, ast.Call) else s.exc
                 q = self.mod.resolve(e)
-                self.raised_repo.append((q, s))
+                if not self.inline_depth:
+                    # what an inlined helper raises is judged where it arrives: at the handlers around the call
+                    self.raised_repo.append((q, s))
                 nm = (dotted(e) or "").split(".")[-1]
                 if self.inline_depth and (nm in BUILTIN_EXC_PARENTS or nm in ("Exception", "BaseException")):
                     # a builtin exception raised by an inlined helper travels through the handlers around the call
